@@ -176,9 +176,21 @@ def tlc_case(cid: int, mand_s: list[int], mand_v: list[int], runs: list[dict[str
     return {"id": cid, "mandS": mand_s, "mandV": mand_v, "runs": runs}
 
 
-def validate(tcases: list[dict[str, Any]], per_batch: int = 8, workers: int = 5) -> tuple[dict[int, dict[str, Any]], list[Any]]:
-    """TLC decides: returns id -> {"a": {...}, "b": {...}} and the TLC results."""
-    batches = [tcases[i:i + per_batch] for i in range(0, len(tcases), per_batch)]
+def validate(tcases: list[dict[str, Any]], capacity: int = 45_000, workers: int = 5) -> tuple[dict[int, dict[str, Any]], list[Any]]:
+    """TLC decides: returns id -> {"a": {...}, "b": {...}} and the TLC results.
+    Batches are filled by weight (recorded steps) so that one JVM start serves many small cases."""
+    batches: list[list[dict[str, Any]]] = []
+    cur: list[dict[str, Any]] = []
+    w = 0
+    for c in sorted(tcases, key=lambda c: -sum(len(r["tr"]) for r in c["runs"])):
+        cw = 40 + sum(len(r["tr"]) + 2 * len(r["m"]) for r in c["runs"])
+        if cur and w + cw > capacity:
+            batches.append(cur)
+            cur, w = [], 0
+        cur.append(c)
+        w += cw
+    if cur:
+        batches.append(cur)
 
     def one(b: list[dict[str, Any]]) -> Any:
         return tlc.validate_batch("Trace_VEcuModel", "Trace_VEcuModel.cfg", {"cases": b}, timeout=1500,
